@@ -74,9 +74,9 @@ pub fn exec_bstep(input: &Value) -> Value {
 pub fn steps_alphabet() -> Vec<Value> {
     vec![
         json!(["without_expiry"]),
-        json!(["with_audience", "aud1"]), json!(["with_audience", "aud2"]),
-        json!(["with_issuer", "iss1"]), json!(["with_issuer", "iss2"]),
-        json!(["with_subject", "sub1"]), json!(["with_subject", "sub2"]),
+        json!(["with_audience", "aud1"]), json!(["with_audience", "https://rp.example/cb/"]),
+        json!(["with_issuer", "iss1"]), json!(["with_issuer", "https://issuer.example/"]),
+        json!(["with_subject", "sub1"]), json!(["with_subject", " Sub/2 "]),
         json!(["with_leeway", 0]), json!(["with_leeway", 60]),
         json!(["with_algorithm", "HS256"]), json!(["with_algorithm", "ES256"]), json!(["with_algorithm", "PS384"]),
         json!(["with_required_claim", "exp"]), json!(["with_required_claim", "nonce"]),
@@ -426,6 +426,27 @@ pub fn generate_c04(thorough: bool, seed: u64, em: &mut Emitter) {
             c["tag"] = json!("sd_string_not_byte_exact");
             em.case("decode", c);
         }
+        // (a3) other spellings of the signature segment: the last base64url character carries 2 or 4 filler bits when the
+        // signature length is not a multiple of 3, so some other last characters decode to the same octets under a
+        // lenient decoder; padding characters and a trailing dot are further respellings. None of them is the
+        // byte-exact issuer-signed JWT
+        {
+            const B64: &[u8; 64] = b"ABCDEFGHIJKLMNOPQRSTUVWXYZabcdefghijklmnopqrstuvwxyz0123456789-_";
+            let last = *token.as_bytes().last().unwrap();
+            for c in B64.iter().filter(|c| **c != last) {
+                let mut m = token[..token.len() - 1].to_string();
+                m.push(*c as char);
+                let mut cse = decode_case(&m, &no_exp(alg), &matching_key_spec(alg), alg, false, "reject", "reject", true);
+                cse["tag"] = json!("signature_last_character");
+                em.case("decode", cse);
+            }
+            for suffix in ["=", "==", ".", "\n", " "] {
+                let m = format!("{}{}", token, suffix);
+                let mut cse = decode_case(&m, &no_exp(alg), &matching_key_spec(alg), alg, false, "reject", "reject", true);
+                cse["tag"] = json!("signature_segment_respelled");
+                em.case("decode", cse);
+            }
+        }
         // (a'') ECDSA: other byte strings for "the same" signature. JWS fixes the signature to the raw R||S octets of
         // the signer; a DER re-encoding of (r, s), and the mirrored signature (r, n - s), are changed signature bytes
         if alg.starts_with("ES") {
@@ -639,6 +660,14 @@ pub fn generate_c16(thorough: bool, seed: u64, em: &mut Emitter) {
             }
         }
         // through the issuer: Issuer::header(h) ... encode
+        // one issuer in eight signs with a key of another family than the header's algorithm asks for: the issuer may refuse,
+        // but a token it does issue carries the configured header - alg included - and nothing else
+        let misfit: Option<&str> = if r.chance(1, 8) {
+            let other = if alg.starts_with("ES") { "HS256" } else if alg.starts_with("HS") { "ES256" } else { *r.pick(&["ES256", "HS256"]) };
+            Some(other)
+        } else {
+            None
+        };
         // one issuer in three was configured with another header first (every member set): header() replaces the
         // header, nothing of the earlier one may survive into the token
         let replaced = r.chance(1, 3);
@@ -659,10 +688,11 @@ pub fn generate_c16(thorough: bool, seed: u64, em: &mut Emitter) {
                 iss.header(first);
             }
             iss.header(h.clone());
-            iss.encode(&signing_key(&alg)).ok()
+            iss.encode(&signing_key(misfit.unwrap_or(&alg))).ok()
         }));
         let sdjwt_str = match token {
             Ok(Some(t)) => t,
+            _ if misfit.is_some() => continue, // refusing the misfit is fine
             _ => {
                 em.case("decode", json!({"token": "", "policy": no_exp(&alg), "key": matching_key_spec(&alg), "family": "other", "parse": null,
                                           "sig_ok_algs": [], "now": now(), "expect": "accept", "expect_sd": "accept", "nontrivial": true, "tag": "issuer_failed"}));
@@ -670,6 +700,16 @@ pub fn generate_c16(thorough: bool, seed: u64, em: &mut Emitter) {
             }
         };
         let jwt = sdjwt_str.split('~').next().unwrap().to_string();
+        if let Some(other) = misfit {
+            // issued although the key does not fit: whoever can verify it (the key that signed, the algorithm the token names)
+            // must be handed the header the issuer was configured with
+            let named = parse_jwt(&jwt)[0]["alg"].as_str().unwrap_or(other).to_string();
+            let mut c = decode_case(&jwt, &no_exp(&named), &matching_key_spec(other), &named, true, "any", "any", true);
+            c["expect_header"] = Value::Object(expect);
+            c["tag"] = json!("signing_key_does_not_fit_alg");
+            em.case("decode", c);
+            continue;
+        }
         let mut c = decode_case(&jwt, &no_exp(&alg), &matching_key_spec(&alg), &alg, true, "accept", "accept", subset != 0);
         c["header_spec"] = Value::Object(expect.clone());
         c["expect_header"] = Value::Object(expect);
